@@ -256,6 +256,10 @@ def gen_workload(tape):
         w["period"] = [a * 60 + 30, b * 60 + 30]
     elif sel == "files":
         w["files_idx"] = [i for i in range(n) if not tape.flag("drop", 1, 4)]
+        if tape.flag("files_any_order", 1, 3) and len(w["files_idx"]) > 1:
+            # an explicit selection is processed in the order it is given
+            p_ = tape.perm(len(w["files_idx"]), "files_perm")
+            w["files_idx"] = [w["files_idx"][k] for k in p_]
         w["files_as"] = "info"
     elif sel == "bundles":
         idx, out = 0, []
